@@ -49,7 +49,7 @@ theorem step_reorg (H : HashAlg α) (n : Nat) (s : TM α) (d : TreeDb α) (b : N
 theorem step_add_ok (H : HashAlg α) (n : Nat) (s : TM α) (d : TreeDb α) (bn bp idx : Nat) (v : α)
     (t' : AOT α) (db' : TreeDb α) (h : s.snap = some d) (ha : addLeaf H n s.t s.db bn bp idx v = (t', .ok db')) :
     TM.step H n s (.add bn bp idx v) = ({ s with t := t', db := db', cbs := s.cbs + 1 }, .ok) := by
-  unfold TM.step; rw [h]; simp only [ha]
+  unfold TM.step; rw [h]; simp only [TM.doAdd, ha]; rw [h]
 
 theorem idx_of_range' {β : Type} (leaves : List (Nat × β)) (a : Nat)
     (h : leaves.map (·.1) = List.range' a leaves.length) :
@@ -134,7 +134,7 @@ theorem filter_lt_eq_take {β : Type} (key : β → Nat) (b : Nat) :
         intro y hy
         have := hs.1 (key y) (List.mem_map.mpr ⟨y, hy, rfl⟩)
         simp; omega
-      simp [List.filter_cons, hx, this]
+      simp [hx, this]
 
 theorem AOInv.take (H : HashAlg α) (n : Nat) (t : AOT α) (db : TreeDb α) (ls : List α)
     (inv : AOInv H n t db ls) (k : Nat)
